@@ -9,7 +9,9 @@
                    the blocking peers, the sleep, the self-touch;
   * `kaSleep`    = the keep-alive period `max(1, min(L, max(1, L − randint(5,10))))`;
   * `touchVal`   = what `touch()` writes (`None` when the record would be dead at once: lifetime ≤ 0);
-  * `step`       = the shared peering object + operators as a labelled transition system.
+  * `step`       = the shared peering object + operators as a labelled transition system. `deliver i` hands
+                   operator i the CURRENT status at the current time (no stale views, clean+toggle atomic): what
+                   late deliveries and same-identity restarts do to the real code is outside it (findings F4, F5).
 
   Time: `Tick = Int`; `u` = ticks per second (the harness uses 64); lifetimes are whole seconds.
 -/
@@ -259,6 +261,7 @@ structure Op where
   alive : Bool
   paused : Bool
   seen : Option (Nat × Int)   -- version of the status last processed, and when
+  sleeping : Bool := false    -- a `process_peering_event` call sleeps towards a deadline and will self-touch on waking
   deriving Repr, DecidableEq
 
 structure State where
@@ -276,6 +279,7 @@ inductive Label where
   | tick (d : Nat)                               -- time passes
   | expire (j : Identity)                        -- time passes up to the latest deadline of j's record(s)
   | foreign (j : Identity) (r : Option Rec)      -- anybody else writes / removes a record
+  | wake (i : Identity)                          -- the sleeping call of i wakes undisturbed and touches its record
   deriving Repr
 
 def updOp (ops : Identity → Option Op) (i : Identity) (o : Op) : Identity → Option Op :=
@@ -307,7 +311,7 @@ def step (u : Int) (s : State) : Label → Option State
     | none => none
   | .kill i =>
     match s.ops i with
-    | some o => if o.alive then some { s with ops := updOp s.ops i { o with alive := false } } else none
+    | some o => if o.alive then some { s with ops := updOp s.ops i { o with alive := false, sleeping := false } } else none
     | none => none
   | .deliver i =>
     match s.ops i with
@@ -316,12 +320,23 @@ def step (u : Int) (s : State) : Label → Option State
         some { s with
           ver := if d.cleaned.isEmpty then s.ver else s.ver + 1
           status := s.status.filter (fun e => !e.2.dead u s.now)
-          ops := updOp s.ops i { o with paused := d.paused.getD o.paused, seen := some (s.ver, s.now) } }
+          -- a new event interrupts the previous sleep (no touch); this call sleeps iff somebody blocks it
+          ops := updOp s.ops i { o with paused := d.paused.getD o.paused, seen := some (s.ver, s.now),
+                                        sleeping := d.touch } }
       else none
     | none => none
   | .tick d => some { s with now := s.now + d }
   | .expire j => some { s with now := latestDeadline u s.status j s.now }
   | .foreign j r => some { s with ver := s.ver + 1, status := s.status.patch j r }
+  | .wake i =>
+    -- NB: not guarded by `alive`: a graceful exit (`exit i`) does not wake the sleeping call; it lives on
+    -- (in the code: for up to `settings.queueing.exit_timeout`) and touches when its deadline comes.
+    match s.ops i with
+    | some o => if o.sleeping then
+        some { s with ver := s.ver + 1, status := s.status.patch i (touchVal u o.prio o.lifetime s.now),
+                      ops := updOp s.ops i { o with sleeping := false } }
+      else none
+    | none => none
 
 def run (u : Int) : State → List Label → Option State
   | s, [] => some s
